@@ -162,14 +162,16 @@ func c08grammars(quick bool) []func() *recGrammar {
 		}
 		return outF
 	})
-	if !quick {
+	{
 		mk("rec3", 3, func(b *builder) []gfam.LeafFn {
-			leaves := []gfam.LeafFn{lit("x"), b.sub(1), b.sub(2), func() *g.Node { return g.Grp(g.Lit("x"), '?') }}
+			leaves := []gfam.LeafFn{lit("x"), b.sub(0), b.sub(1), b.sub(2), func() *g.Node { return g.Grp(g.Lit("x"), '?') }}
 			var ts []gfam.LeafFn
 			ts = append(ts, gfam.Terms(1, leaves)...)
 			ts = append(ts, gfam.Terms(2, leaves)...)
-			m1 := []gfam.LeafFn{func() *g.Node { return b.sub(2)() }, func() *g.Node { return g.Seq(g.Grp(g.Lit("y"), '?'), b.sub(2)()) }, func() *g.Node { return g.Seq(g.Lit("y"), b.sub(2)()) }, func() *g.Node { return g.Lit("y") }}
-			m2 := []gfam.LeafFn{func() *g.Node { return b.sub(0)() }, func() *g.Node { return g.Seq(g.Lit("z"), b.sub(0)()) }, func() *g.Node { return g.Alt(g.Lit("z"), g.Seq(b.sub(0)(), g.Lit("z"))) }, func() *g.Node { return g.Seq(g.Grp(g.Lit("z"), '*'), b.sub(1)()) }}
+			m1 := []gfam.LeafFn{func() *g.Node { return b.sub(2)() }, func() *g.Node { return g.Seq(g.Grp(g.Lit("y"), '?'), b.sub(2)()) }, func() *g.Node { return g.Seq(g.Lit("y"), b.sub(2)()) }, func() *g.Node { return g.Lit("y") },
+				func() *g.Node { return g.Seq(b.sub(2)(), b.sub(2)()) }, func() *g.Node { return g.Seq(b.sub(2)(), g.Grp(b.sub(2)(), '?'), g.Lit("y")) }}
+			m2 := []gfam.LeafFn{func() *g.Node { return b.sub(0)() }, func() *g.Node { return g.Seq(g.Lit("z"), b.sub(0)()) }, func() *g.Node { return g.Alt(g.Lit("z"), g.Seq(b.sub(0)(), g.Lit("z"))) }, func() *g.Node { return g.Seq(g.Grp(g.Lit("z"), '*'), b.sub(1)()) },
+				func() *g.Node { return g.Grp(g.Lit("z"), '*') }, func() *g.Node { return g.Grp(g.Alt(g.Lit("z"), g.Lit("w")), '?') }}
 			var outF []gfam.LeafFn
 			for _, f := range ts {
 				for _, a := range m1 {
